@@ -10,6 +10,7 @@ THEOREMS = [
     ("EG.props.C16", "C16_reconnect_reads_store"),
     ("EG.props.C16", "C16_clean_discards"),
     ("EG.props.C16", "C16_admin_delete_disconnects"),
+    ("EG.props.C16", "C16_admin_unregister_guarded"),
     ("EG.props.C16", "C16_registration_survives"),
     ("EG.props.C16", "C16_broker_is_product"),
     ("EG.props.C16", "C16_refuted_takeover"),
@@ -104,7 +105,7 @@ def encode(c):
                   L([Z(x) for x in st.get("recv") or []]))
         else:
             continue
-        out.append(T(t, _snap(st.get("snap") or {})))
+        out.append(T(t, "None" if st.get("nosnap") else "(Some %s)" % _snap(st.get("snap") or {})))
     return Rec(lc_steps=L(out), lc_bad=B(bool(o.get("bad")) or len(steps) != len(ops)))
 
 
